@@ -69,7 +69,22 @@ Lattice ==
        scn = Build(Layout(keys, pubs, thr), Own("o1"),
                    Entries("k1", st1) \o Entries("k2", st2) \o Entries("kx", stx) \o <<S2Entry>>, {})
 
-MCInit == (Lattice \/ OwnerAsFunctionary) /\ VInitRest
+\* the step under test is neither the first nor the last of the layout, nothing refers to it and its own rules
+\* demand nothing: only the evidence requirement itself stands between an empty step and acceptance
+MiddleLayout(pubs, thr) ==
+  LayoutD(<<GoodSig("o1")>>, 1000, <<"k1", "k2", "k3">>,
+          <<StepD("s0", <<"k3">>, 1, << >>, <<Simple("ALLOW", <<"*">>)>>),
+            StepD("s1", pubs, thr, <<Simple("ALLOW", <<"*">>)>>, <<Simple("ALLOW", <<"*">>)>>),
+            StepD("s2", <<"k3">>, 1, <<Simple("ALLOW", <<"*">>)>>, <<Simple("ALLOW", <<"*">>)>>)>>,
+          << >>)
+Middle ==
+  \E pubs \in {<<"k1">>, <<"k1", "k2">>, <<"kx">>}, thr \in {0, 1},
+     st1 \in {"absent", "valid", "flipped", "misfiled", "other", "tampered"}, st2 \in {"absent", "valid"} :
+     scn = Build(MiddleLayout(pubs, thr), Own("o1"),
+                 <<Entry(<< >>, "s0", "k3", LinkD("s0", <<GoodSig("k3")>>, {}, ProdA))>>
+                 \o Entries("k1", st1) \o Entries("k2", st2) \o <<S2Entry>>, {})
+
+MCInit == (Lattice \/ OwnerAsFunctionary \/ Middle) /\ VInitRest
 
 MCSpec == MCInit /\ [][VNext]_vars
 Emit == EmitAs("C02")
